@@ -5,7 +5,9 @@ EmitScn == pc = "start" => PrintT(<<"SCN", ToJson([scn |-> scn])>>)
 Backends == {"requests", "httpx_sync", "httpx_async", "aiohttp"}
 CTypes == {[base |-> b, variant |-> v] : b \in {"application/json", "application/json-rpc"}, v \in {"plain", "charset"}}
           \cup {[base |-> b, variant |-> "plain"] : b \in {"text/html", "text/plain", "application/jsonrequest", "missing"}}
-Init == \E b \in Backends, r \in {"call", "notification", "batch"}, ra \in BOOLEAN, st \in {200, 201, 404, 500},
+InitDrop == \E b \in Backends, r \in {"call", "notification", "batch"}, ra \in BOOLEAN :
+               InitWith([backend |-> b, req |-> r, raise |-> ra, status |-> 200, ctype |-> [base |-> "application/json", variant |-> "plain"], body |-> "drop"])
+Init == InitDrop \/ \E b \in Backends, r \in {"call", "notification", "batch"}, ra \in BOOLEAN, st \in {200, 201, 404, 500},
            ct \in CTypes, bd \in {"result", "error", "wrong_id", "empty", "html"} :
            InitWith([backend |-> b, req |-> r, raise |-> ra, status |-> st, ctype |-> ct, body |-> bd])
 =============================================================================
